@@ -2,7 +2,7 @@
 Spec: Quantiser.tla, QuantiserModel.tla, QuantiserTrace.tla."""
 import itertools, random
 import numpy as np
-from ..core import deadline, import_repo
+from ..core import deadline, import_repo, protect
 
 LEVEL = "model_checking"
 
@@ -26,7 +26,7 @@ def run(ctx):
         arr = np.array(data, dtype=float) * scale
         rnd.shuffle(data)
         with deadline(60):
-            ret = shortest_int(np.array(data, dtype=float) * scale, pnum / pden)
+            ret = shortest_int(protect(np.array(data, dtype=float) * scale), pnum / pden)
         ret = np.asarray(ret, dtype=float).ravel()
         if ret.size != 2:
             ret = np.array([np.nan, np.nan])
@@ -78,7 +78,7 @@ def run(ctx):
     # ADC
     def adc_event(x, n, otype, scale, as_signal):
         arr = np.array(x, dtype=float) * scale
-        inp = electrical_signal(arr) if as_signal == 1 else (electrical_signal(arr * 0.5, arr * 0.5) if as_signal == 2 else arr)
+        inp = protect(electrical_signal(arr) if as_signal == 1 else (electrical_signal(arr * 0.5, arr * 0.5) if as_signal == 2 else arr))
         with deadline(120):
             out = ADC(inp, n=n, otype=otype)
         o = np.asarray(out.signal, dtype=float)
